@@ -124,3 +124,36 @@ func TestClonePoolGC(t *testing.T) {
 		t.Fatalf("Last GC: Expected 0 marked release, got %d", n)
 	}
 }
+
+func TestClonePoolExtractAllAfterGoFinalizer(t *testing.T) {
+	// A value whose Go finalizer has run but which has not been extracted with
+	// ExtractPendingFinalize must still be returned by
+	// ExtractAllMarkedFinalize (e.g. the runtime is closed right after a GC).
+	c := installTestCollector()
+	p := NewClonePool()
+
+	n1 := newIntPtr(1)
+	n2 := newIntPtr(2)
+	n3 := newIntPtr(3)
+
+	p.Mark(n1, Finalize)
+	p.Mark(n2, Finalize|Release)
+	p.Mark(n3, Finalize)
+
+	c.GC(n1, n2)
+
+	mf := p.ExtractAllMarkedFinalize()
+	if !reflect.DeepEqual(mf, []Value{n3, n2, n1}) {
+		t.Fatalf("Incorrect marked finalize: %+v", mf)
+	}
+	if n := len(p.ExtractPendingFinalize()); n != 0 {
+		t.Fatalf("Expected no pending finalize, got %d", n)
+	}
+	if n := len(p.ExtractAllMarkedFinalize()); n != 0 {
+		t.Fatalf("Expected no marked finalize, got %d", n)
+	}
+	mr := p.ExtractAllMarkedRelease()
+	if !reflect.DeepEqual(mr, []Value{n2}) {
+		t.Fatalf("Incorrect marked release: %+v", mr)
+	}
+}
